@@ -164,7 +164,7 @@ def gen_args(rng, positions, xenv, mode):
         if v is not None and j == wrong:
             w = G.corrupt(rng, conc, v)
             v = w if w is not None else v
-        if v is None or (v[0] == 'iter'):
+        if v is None or (v[0] == 'iter') or not renderable(v):
             v = rng.choice(G.SCALARS)
         vals.append(deiter(v))
     return vals
@@ -180,6 +180,18 @@ def deiter(v):
     if k in ('dict', 'defaultdict', 'ordereddict', 'items'):
         return [k, [[deiter(a), deiter(b)] for a, b in v[1]]]
     return v
+
+
+def renderable(v):
+    """set elements and dict keys must be hashable (a TypeVar under Set[...] may have been replaced by List[...])"""
+    k = v[0]
+    if k in ('set', 'frozenset', 'keys'):
+        return all(G.is_hashable(x) and renderable(x) for x in v[1])
+    if k in ('list', 'tuple', 'deque', 'values', 'iter'):
+        return all(renderable(x) for x in v[1])
+    if k in ('dict', 'defaultdict', 'ordereddict', 'items'):
+        return all(G.is_hashable(a) and renderable(a) and renderable(b) for a, b in v[1])
+    return True
 
 
 def gen_sig(rng, tvs, nmax=3, ret_none=0.4):
@@ -333,6 +345,8 @@ def strip_fwd(a):
     if k == 'union': return ['union', a[1], [strip_fwd(x) for x in a[2]]]
     if k == 'gen': return ['gen', a[1], a[2], [strip_fwd(x) for x in a[3]]]
     if k == 'tuplevar': return ['tuplevar', a[1], strip_fwd(a[2])]
+    if k == 'newtype': return ['newtype', strip_fwd(a[1])]
+    if k == 'callable': return ['callable', None if a[1] is None else [strip_fwd(x) for x in a[1]], strip_fwd(a[2])]
     return a
 
 
@@ -443,8 +457,8 @@ def run(tier, seed, replay=None):
     if replay is not None:
         cases = [replay['case']]
     else:
-        n_tv = (900 if tier == 'quick' else 9000) * ck.scale()
-        n_h = (260 if tier == 'quick' else 1500) * ck.scale()
+        n_tv = (800 if tier == 'quick' else 7000) * ck.scale()
+        n_h = (230 if tier == 'quick' else 700) * ck.scale()
         max_steps = 40 if tier == 'quick' else 400
         cases = [gen_typevars_case(ck.rng) for _ in range(n_tv)]
         for i in range(n_h):
@@ -457,7 +471,7 @@ def run(tier, seed, replay=None):
     for c, (r, m) in zip(cases, results):
         if r is None or m is None or 'error' in (r or {}):
             lost += 1
-            if r is not None and 'error' in r and 'outside the universe' not in r['error']:
+            if r is not None and 'error' in r and 'outside the universe' not in r['error'] and 'unhashable type' not in r['error']:
                 disagreements.append({'what': 'worker error', 'impl': r, 'case': c})
             continue
         bump('stream', c['stream'])
